@@ -8,6 +8,10 @@ use bytes::{Buf, BufMut, Bytes, BytesMut};
 pub trait Fragmentable: Sized {
     type Buffer;
     fn as_buffer(&self) -> Self::Buffer;
+    // None if the thing has no wire representation (e.g. a field does not fit its length prefix)
+    fn try_as_buffer(&self) -> Option<Self::Buffer> {
+        Some(self.as_buffer())
+    }
     fn from_buffer(buf: Bytes) -> Option<Self>;
 }
 
@@ -50,7 +54,7 @@ where
         next_id: &mut u16,
         thing: T,
     ) -> Option<MakeFragments<T::Buffer>> {
-        let buf = thing.as_buffer();
+        let buf = thing.try_as_buffer()?;
         let id = *next_id;
         *next_id = next_id.wrapping_add(1);
         MakeFragments::new(id, mtu, buf)
